@@ -54,7 +54,7 @@ from .terms import (
     Unit,
     norm_index,
 )
-from .values import NONE, ClassV, DictV, FuncV, IterV, ListV, ModuleV, NoneV, ObjV, OptV, RecV, TupleV, Type, parse_type
+from .values import NONE, ClassParamV, ClassV, DictV, FuncV, IterV, ListV, ModuleV, NoneV, ObjV, OptV, RecV, TupleV, Type, parse_type
 
 
 class Unsupported(Exception):
@@ -328,6 +328,8 @@ class Run(object):
             return self.fresh(base, ty.sort())
         if k == "obj":
             return ObjV(self.fresh(base, REF), ty.arg)
+        if k == "cls":
+            return ClassParamV(ty.arg)
         if k == "list":
             cid = self.new_cell(st, self.fresh(base, ty.sort()))
             return ListV(cid, ty.arg)
@@ -1093,6 +1095,13 @@ class Run(object):
         if isinstance(op, (ast.Eq, ast.NotEq)):
             r = self.equal(st, a, b)
             return r if isinstance(op, ast.Eq) else Not(r)
+        if isinstance(op, (ast.Lt, ast.LtE, ast.Gt, ast.GtE)) and (isinstance(a, NoneV) or isinstance(b, NoneV)):
+            # ordering None: a TypeError in code; in a specification it only occurs under a guard that excludes it (result is not
+            # None => ...) on the exit where the value IS None: the clause is false there and the guard makes it irrelevant
+            if self.spec_mode:
+                return FALSE
+            self.check(st, FALSE, "TypeError", node)
+            raise DeadPath()
         if isinstance(op, (ast.Lt, ast.LtE, ast.Gt, ast.GtE)) and (isinstance(a, OptV) or isinstance(b, OptV)):
             # ordering an optional value: TypeError when it is None
             if isinstance(a, OptV):
@@ -1235,6 +1244,9 @@ class Run(object):
             return Contains(val, Unit(xr))
         if isinstance(container, T) and container.sort == STR:
             return Contains(container, self.raw(st, x))
+        if isinstance(container, T) and isinstance(container.sort, tuple) and container.sort[0] == "Array" and container.sort[2] == BOOL:
+            # a membership set (a field declared map[<key>,bool]: a collection that is only ever asked `x in c`)
+            return Select(container, self.raw(st, x))
         if isinstance(container, TupleV):
             return Or(*[self.equal(st, y, x) for y in container.items])
         if isinstance(container, DictV):
@@ -1360,9 +1372,32 @@ class Run(object):
         if self.spec_mode and isinstance(node.func, ast.Name) and node.func.id in ("old", "forall", "exists", "implies", "entry", "lasthead", "only_dict"):
             return self.spec_form(node, st)
         f = self.ev(node.func, st)
+        if isinstance(f, ClassParamV):
+            # instantiating a class that was received as a value: a fresh object of an unknown subclass of the declared base (its
+            # constructor is not known: the fields of the new object are unconstrained)
+            for a in node.args:
+                self.ev(a, st)
+            ref = self.fresh("new_" + f.base.split(".")[-1], REF)
+            st.ghost["#allocated"] = set(st.ghost.get("#allocated", ())) | {str(ref)}
+            # ... of a PROPER subclass: a class handed around as a value is never the base itself (part of what `cls:<base>` means)
+            UFS["cls"] = ([REF], INT)
+            st.assume(Ne(App("cls", (ref,), INT), I(self.engine.class_id(f.base))))
+            return ObjV(ref, f.base)
         if not isinstance(f, (FuncV, ClassV)):
             raise Unsupported("call of %r" % (f,))
-        args = [self.ev(a, st) for a in node.args]
+        args = []
+        ct_ = self.engine.contracts.get(f.qual) if isinstance(f, FuncV) else None
+        for i_, a in enumerate(node.args):
+            # an argument of an assumed external contract that declares no type for it (the contract says nothing about it) may be
+            # any expression: if it is outside the subset (a list with None entries, ...) it is passed as an opaque value
+            opaque_ok = bool(ct_ and ct_.get("external") and i_ < len(ct_.get("params", [])) and ct_["params"][i_] not in ct_.get("types", {}))
+            if opaque_ok:
+                try:
+                    args.append(self.ev(a, st))
+                except Unsupported:
+                    args.append(NONE)
+            else:
+                args.append(self.ev(a, st))
         kwargs = {k.arg: self.ev(k.value, st) for k in node.keywords}
         if isinstance(f, ClassV):
             return self.construct(st, f, args, kwargs, node)
@@ -1401,19 +1436,21 @@ class Run(object):
                 return ListV(self.new_cell(st, h2.cells[v.cell][0]), v.elem)
             return v
         if name == "only_dict":
-            # only_dict(d): of all dictionary objects only d differs from what it was in the old state (object-precise frame, stated
-            # without a quantifier: the heap arrays are equal except at d)
+            # only_dict(d, ...): of all dictionary objects only the listed ones differ from what they were in the old state
+            # (object-precise frame, stated without a quantifier: the heap arrays are equal except at these references)
             o = self.old_state
             if o is None:
                 raise Unsupported("only_dict() has no reference state here")
-            d = self.as_dict(st, self.ev(node.args[0], st), node)
+            ds = [self.as_dict(st, self.ev(a, st), node) for a in node.args]
             o2 = o.fork()
             out = []
             for f in ("__keys__", "__vals__"):
                 ty, hk = self.field_info("builtins.dict", f)
                 cur = self.heap_arr(st, hk, ty)
-                old = self.heap_arr(o2, hk, ty)
-                out.append(Eq(cur, Store(old, d.term, Select(cur, d.term))))
+                arr = self.heap_arr(o2, hk, ty)
+                for d in ds:
+                    arr = Store(arr, d.term, Select(cur, d.term))
+                out.append(Eq(cur, arr))
             return And(*out)
         if name in ("old", "entry"):
             o = self.old_state if name == "old" else (self.entry_states[-1] if self.entry_states else None)
@@ -1543,6 +1580,13 @@ class Run(object):
         return self.wrap(st, t, rty)
 
     def call_builtin(self, st, name, args, kwargs, node):
+        if name == "getattr" and len(args) == 2 and isinstance(args[0], ObjV) and isinstance(args[1], T) and args[1].sort == STR:
+            # getattr(o, name) with a computed name: the entry of o.__dict__ (for classes whose __dict__ is declared as a dictionary
+            # object); AttributeError when there is no such entry
+            d = self.as_dict(st, self.read_field(st, args[0], "__dict__", node), node)
+            K, V = self.dict_arrays(st, d)
+            self.check(st, Select(K, args[1]), "AttributeError", node)
+            return ObjV(Select(V, args[1]), None)
         if name == "len":
             (a,) = args
             if isinstance(a, OptV):
@@ -1616,6 +1660,12 @@ class Run(object):
                 return App("(_ is VStr)" if args[1].qual == "builtins.str" else "(_ is VInt)", (args[0],), BOOL)
             if isinstance(args[0], T) and args[0].sort in (INT, STR, BOOL) and isinstance(args[1], FuncV):
                 return B({"builtins.str": STR, "builtins.int": INT, "builtins.bool": BOOL}.get(args[1].qual) == args[0].sort)
+            if isinstance(args[0], ObjV) and args[0].cls is None and isinstance(args[1], FuncV) and args[1].qual in ("builtins.str", "builtins.int", "builtins.bool"):
+                # an opaque reference (a dictionary value): is it a boxed scalar of that type?  (uninterpreted predicate; a boxed
+                # value of one type is none of another: the injections have disjoint ranges, stated for the terms that occur)
+                nm = "isboxed_" + args[1].qual[9:]
+                UFS[nm] = ([REF], BOOL)
+                return App(nm, (args[0].term,), BOOL)
             return self.engine.isinstance_hook(self, st, args[0], args[1], node)
         if "builtins." + name in self.engine.contracts:
             return self.call_function(st, "builtins." + name, args, kwargs, node)
@@ -1863,15 +1913,25 @@ class Run(object):
         defaults = a.defaults
         for n, d in zip(names[len(names) - len(defaults) :], defaults):
             if n not in params:
-                params[n] = self.ev_default(d, st)
+                params[n] = self.ev_default(d, st, mod)
         for n in names:
             if n not in params:
                 raise Unsupported("missing argument " + n)
         return params
 
-    def ev_default(self, d, st):
+    def ev_default(self, d, st, mod=None):
         if isinstance(d, ast.Constant):
             return self.ev_Constant(d, st)
+        if isinstance(d, (ast.Attribute, ast.Name)) and mod is not None:
+            # a default that names a module-level object of the callee's module (oType=parser.todo): evaluated there
+            saved = self.module
+            self.module = mod
+            try:
+                v = self.ev(d, st)
+            finally:
+                self.module = saved
+            if isinstance(v, (ClassV, FuncV)):
+                return v
         raise Unsupported("non-constant default")
 
     def inline(self, st, q, mod, inner, fdef, params, node):
@@ -2019,6 +2079,11 @@ class Run(object):
             return ListV(self.new_cell(st, Ite(cond, self.raw(st, a), self.raw(st, b))), a.elem or b.elem)
         if isinstance(a, ObjV) and isinstance(b, ObjV):
             return ObjV(Ite(cond, a.term, b.term), a.cls if a.cls == b.cls else None)
+        # an opaque reference (a dictionary value) and a scalar: the scalar is boxed, as it would be inside a dictionary
+        if isinstance(a, ObjV) and a.cls is None and isinstance(b, T) and b.sort in (STR, INT, BOOL):
+            return ObjV(Ite(cond, a.term, self.box(st, b)), None)
+        if isinstance(b, ObjV) and b.cls is None and isinstance(a, T) and a.sort in (STR, INT, BOOL):
+            return ObjV(Ite(cond, self.box(st, a), b.term), None)
         raise Unsupported("cannot merge results %r / %r" % (a, b))
 
     def adopt(self, st, s1):
